@@ -187,6 +187,60 @@ def _render_inlined(prog):
     return prog.inlined(r0, depth=2, pred=lambda cb: (not cb.is_pub) and cb.file == r0.file and cb.path.rsplit("::", 1)[-1] not in keep and not cb.path.rsplit("::", 1)[-1].startswith("sort"))
 
 
+def must_fill_rule(rep, prog):
+    """F3c (structural complement of the scene-based F3): with culling off every clipped triangle is rasterised. In render() with all its
+    private helpers inlined, from the None edge of the switch on ctx.face_cull no path reaches the next loop iteration (or the return)
+    without passing tri_fill, except through a test of some quantity against exactly 0.0. This sees a size / count THRESHOLD that the
+    reference scene does not trip."""
+    cfg = prog.config
+    r0 = prog.body(RENDER)
+    rn = prog.inlined(r0, depth=3, pred=lambda cb: (not cb.is_pub) and cb.file == r0.file)
+    sl = T.Slicer(rn)
+    live = set(rn.reachable(0))
+    fills = [bi for bi, _t in rn.calls(lambda c: facts.callee_matches(c, "raster::tri_fill")) if bi in live]
+    heads = [bi for bi, _t in rn.calls(lambda c: facts.callee_matches(c, "Iterator::next")) if bi in live and any(f in rn.natural_loop(bi) for f in fills)]
+    is_fc = lambda p: T.contains(p, lambda f: f[0] == "field" and f[2] == "Context.face_cull")  # noqa: E731
+    some_e, none_e = G.option_edges(rn, sl, lambda p: p[0] == "field" and p[2] == "Context.face_cull")
+    if not (fills and heads and none_e):
+        rep.notes.append("C07.F3c: render() has no `match`/`if let` on ctx.face_cull inside a loop that calls tri_fill (anchors: fills=%d loops=%d None-edges=%d); "
+                         "the threshold by-pass rule is not applicable to this form, F3 on the reference scene stands alone" % (len(fills), len(heads), len(none_e)))
+        rep.inst("C07.F3", "F3c must-fill rule: not applicable to this form of render()", config=cfg)
+        return
+    FC = "retrofire_core::render::ctx::FaceCull"
+    inner = lambda p: p[0] == "field" and p[1][0] == "downcast" and is_fc(p)  # noqa: E731
+    back_e = G.variant_edges(prog, rn, sl, inner, FC, "Back")
+    front_e = G.variant_edges(prog, rn, sl, inner, FC, "Front")
+    rets = G.return_blocks(rn)
+    skip = False
+    for (_s, dst, _l) in none_e:
+        r = rn.reachable_sensitive(dst, removed_edges=(set(back_e) | set(front_e) | set(some_e)) - set(none_e), removed_blocks=set(fills), unwind=False)
+        if any(h in r for h in heads) or any(x in r for x in rets):
+            skip = True
+            none_reach = r
+    if skip:
+        guards = []
+        for bi_, blk_ in enumerate(rn.blocks):
+            t_ = blk_["term"]
+            if t_["k"] != "SwitchInt" or bi_ not in live or bi_ not in none_reach:
+                continue
+            succ = [tg for _v, tg in t_["targets"]] + [t_["otherwise"]]
+            byp = [s_ for s_ in succ if any(h in rn.reachable(s_, removed_blocks=set(fills), unwind=False) for h in heads) and not
+                   any(f in rn.reachable(s_, removed_blocks=set(heads), unwind=False) for f in fills)]
+            if byp and len(byp) < len(succ):
+                guards.append(T.strip(sl.operand(t_["discr"]), sites=True, refs=True))
+        is_fc_guard = lambda g: T.contains(g, lambda q: q[0] == "field" and q[2] == "Context.face_cull")  # noqa: E731
+        exact_zero = lambda g: g[0] == "bin" and g[1] in ("Eq", "Ne") and (("const", "f32", 0.0) in (g[2], g[3]))  # noqa: E731
+        other = [g for g in guards if not is_fc_guard(g) and not exact_zero(g)]
+        if guards and not other:
+            rep.notes.append("C07.F3: triangles are skipped on an exact-zero test only (%s): no pixel centre is lost" % [T.show(g)[:60] for g in guards])
+            skip = False
+    rep.inst("C07.F3", "F3c: with face_cull = None every path from the cull decision to the next triangle passes tri_fill: %s" % (not skip), config=cfg)
+    if skip:
+        rep.violate("C07.F3", "F3|None/dropped", rn.where(),
+                    "with face_cull = None a clipped triangle can reach the next iteration without being handed to tri_fill: something other than face culling drops triangles",
+                    config=cfg)
+
+
 def cull_rules(rep, prog):
     cfg = prog.config
     rn0 = prog.body(RENDER)
@@ -482,7 +536,8 @@ def addassign_rules(rep, prog):
                 return A.some(cur)
             return A.NONE
         raise A.Undecided("Iterator::next on %r" % (v,))
-    it = A.Interp(prog, models={"Iterator::next": m_range_next, "IntoIterator::into_iter": A.m_identity})
+    from . import symalg as S, constfold as CF
+    it = S.interp(prog, models=dict(CF.MODELS))       # the ring domain's interpreter: index loops, zips of the counter arrays, destructuring alike
     cell = A.Frame(None)
     cell.locals[0] = mk("a")
     try:
@@ -495,7 +550,10 @@ def addassign_rules(rep, prog):
 
     def expect(path, got):
         a, b = ("sym", "a." + path), ("sym", "b." + path)
-        ok = got in (("symop", "Add", a, b), ("symop", "Add", b, a))
+        try:
+            ok = S.to_poly(A.deref_all(it, got)) == S.to_poly(("symop", "Add", a, b))
+        except S.NotPolynomial:
+            ok = False
         checked.append((path, ok))
         if not ok:
             bad.append((path, got))
@@ -517,7 +575,11 @@ def winding_rules(rep, prog):
     the two vertex orders of a non-degenerate triangle is a back face, whichever vertex comes first."""
     from . import symalg as S
     cfg = prog.config
-    isb = prog.body("retrofire_core::render::is_backface")
+    isb = prog.bodies.get("retrofire_core::render::is_backface")
+    if isb is None:
+        rep.notes.append("C07.F6: render.rs has no separate is_backface function (the test is written inline): one-winding-only is decided on the reference "
+                         "scene's rotated / reversed triangles under F3")
+        return
     VTX = "retrofire_core::geom::Vertex"
 
     def decide(order):
@@ -560,22 +622,50 @@ def winding_rules(rep, prog):
 
 
 def check_config(rep, prog):
+    cfg = prog.config
     rep.guard(winding_rules, rep, prog)
 
     def targets():
-        fb = TargetImpl(prog, FB_RASTERIZE, True)
-        cb = TargetImpl(prog, BUF_RASTERIZE, False)
-        c1 = flag_rules(rep, prog, fb, "Framebuf::rasterize")
-        c2 = flag_rules(rep, prog, cb, "<Buf as Target>::rasterize")
-        rep.count("colour_stores", c1[0] + c2[0])
-        rep.count("depth_stores", c1[1])
-        rep.count("o_counters", c1[2] + c2[2])
+        # F1 / F2 by interpreting both impls over the scenarios of sa/target_sem.py (shape-independent; the control-dependence
+        # rules of flag_rules() that this replaced fired on behaviour-preserving rewrites, DESIGN 8.13)
+        from . import target_sem as TS
+        thorough = rep.tier == "thorough"
+        for which, name, path in (("framebuf", "Framebuf::rasterize", FB_RASTERIZE), ("colour", "<Buf as Target>::rasterize", BUF_RASTERIZE)):
+            try:
+                n, findings = TS.check_target(prog, which, thorough)
+            except A.Undecided as e:
+                raise common.Infra("C07.F1: %s could not be interpreted over the flag scenarios (%s%s)" % (name, e, "; in " + " < ".join(getattr(e, "stack", [])[:3]) if getattr(e, "stack", None) else ""))
+            mine = [f for f in findings if f[0] in ("F1", "F2")]
+            rep.inst("C07.F1", "%s interpreted in %d scenarios (depth predicate x stored/new order x shader result x color_write x depth_write, plus empty spans): "
+                     "each buffer is written exactly for passing, shaded fragments whose flag is on: %s" % (name, n, not any(f[0] == "F1" for f in mine)), config=cfg)
+            rep.inst("C07.F2", "%s: Throughput.o = number of colour writes, Throughput.i = span length in every scenario: %s" % (name, not any(f[0] == "F2" for f in mine)), config=cfg)
+            rep.count("target_scenarios", n)
+            for clause, key, msg in mine:
+                rep.violate("C07." + clause, "%s|%s|%s" % (clause, name, key), prog.body(path).where(), "%s: %s" % (name, msg), config=cfg)
     rep.guard(targets)
 
     def culling():
-        fills, heads = cull_rules(rep, prog)
-        stats_rules(rep, prog, fills, heads)
+        # F3 / F4 / F6 by interpreting render() on the reference scene of sa/render_sem.py (both windings, rotated and reversed vertex orders
+        # of one shape, a y-flipping viewport, a triangle crossing the near plane, a sub-pixel triangle) under every face_cull setting
+        from . import render_sem as RSEM
+        rn = prog.body(RENDER)
+        try:
+            n, findings = RSEM.check(prog)
+        except A.Undecided as e:
+            raise common.Infra("C07.F3: render() could not be interpreted on the reference scene (%s)" % e)
+        cull = [f for f in findings if f[0] == "cull" or (f[0] == "pipeline" and f[1] == "dropped")]
+        stats = [f for f in findings if f[0] == "stats"]
+        rep.inst("C07.F3", "render() interpreted in %d (face_cull, depth_sort) settings: None draws every visible triangle, Back exactly those whose on-screen "
+                 "(p1-p0) x (p2-p0) <= 0, Front the others - the same whichever vertex comes first, decided on the positions that are rasterised: %s" % (n, not cull), config=cfg)
+        for cl, key, msg in cull:
+            rep.violate("C07.F3", "F3|None/dropped" if cl == "pipeline" else "F3|%s" % key, rn.where(), msg, config=cfg)
+        rep.inst("C07.F4", "statistics after render() on the reference scene: calls + 1, inputs from the slice lengths, outputs + 1 / + 3 per triangle that reaches tri_fill, "
+                 "every rasterize result accumulated, merged into ctx.stats: %s" % (not stats), config=cfg)
+        for _cl, key, msg in stats:
+            rep.violate("C07.F4", "F4|%s" % key, rn.where(), msg, config=cfg)
+        rep.count("render_settings", n)
     rep.guard(culling)
+    rep.guard(must_fill_rule, rep, prog)
     rep.guard(addassign_rules, rep, prog)
 
 
